@@ -37,6 +37,7 @@ type FnVector struct {
 	Kind   string         `json:"kind"`
 	Status map[string]int `json:"status"`
 	Flags  map[string]bool `json:"flags"`
+	CPaused string         `json:"cpaused"` // none | true | false | falseReason: the EDS's Canary-Paused condition
 	// fitness
 	Node        *FitNode          `json:"node"`
 	Sel         map[string]string `json:"sel"`
